@@ -633,4 +633,36 @@ FILE *simfd_cookie_stream_unreadable(void)
     if (fp) open_streams++;
     return fp;
 }
+/* a stdio stream over a simulated descriptor, as fdopen() or popen() give one: stdio reads ahead through the descriptor (so the
+   descriptor's position runs in front of the stream's), fileno() names the descriptor, seeking works iff the descriptor is a regular
+   file.  An interrupted read is restarted before stdio sees it (SA_RESTART); short reads and hard errors reach stdio as they are. */
+typedef struct { int fd, failed; } fdstream_t;
+static ssize_t fds_read(void *c, char *buf, size_t n)
+{
+    fdstream_t *s = c;
+    ssize_t r;
+    if (s->failed) { errno = EIO; return -1; }          /* (a device that failed stays failed, as with the other simulated streams) */
+    do r = sim_read(s->fd, buf, n); while (r < 0 && errno == EINTR);
+    if (r < 0) s->failed = 1;
+    return r;
+}
+static int fds_seek(void *c, off64_t *off, int whence)
+{
+    fdstream_t *s = c;
+    off_t r = sim_lseek(s->fd, (off_t)*off, whence);
+    if (r < 0) return -1;
+    *off = r;
+    return 0;
+}
+static int fds_close(void *c) { free(c); open_streams--; return 0; }
+FILE *simfd_fd_stream(int fd)
+{
+    fdstream_t *s = calloc(1, sizeof(*s));
+    cookie_io_functions_t io = { fds_read, NULL, fds_seek, fds_close };
+    FILE *fp;
+    s->fd = fd;
+    fp = fopencookie(s, "r", io);
+    if (fp) { open_streams++; fp->_fileno = fd; }
+    return fp;
+}
 int simfd_open_streams(void) { return open_streams; }
